@@ -21,7 +21,8 @@ Fresh(ka) ==
   /\ conns' = [q \in Svc |-> [p \in Peers |-> NoCtx]]
   /\ track' = [q \in Svc |-> {}]
   /\ nextId' = 0 /\ dead' = FALSE /\ mgr' = {}
-  /\ cnt' = [opens |-> 0, inb |-> 0, fc |-> 0, exp |-> 0]
+  /\ cnt' = [opens |-> 0, inb |-> 0, fc |-> 0, exp |-> 0, full |-> 0]
+  /\ blk' = <<>>
   /\ KA' = ka
   /\ mon' = MonInit /\ hist' = <<>> /\ out' = [ret |-> [k |-> "none"], panic |-> FALSE]
 
@@ -31,7 +32,8 @@ TInit == /\ l = 1
          /\ conns = [q \in Svc |-> [p \in Peers |-> NoCtx]]
          /\ track = [q \in Svc |-> {}]
          /\ nextId = 0 /\ dead = FALSE /\ mgr = {}
-         /\ cnt = [opens |-> 0, inb |-> 0, fc |-> 0, exp |-> 0]
+         /\ cnt = [opens |-> 0, inb |-> 0, fc |-> 0, exp |-> 0, full |-> 0]
+         /\ blk = <<>>
          /\ KA = [q \in Svc |-> q = 0]
          /\ mon = MonInit /\ hist = <<>> /\ out = [ret |-> [k |-> "none"], panic |-> FALSE]
 
@@ -51,8 +53,9 @@ ImplAct(s, r) ==
     [] s.a = "open" -> Open(s.q, s.p)
     [] s.a = "cmd" -> IF s.c \in DOMAIN cst /\ cst[s.c] = "live" /\ cmdq[s.c] = <<>> /\ Strong(s.c) > 0
                         THEN Idle(s, [k |-> "pending"]) ELSE Cmd(s.c)
-    [] s.a = "reply" -> \E x \in pend[s.c] : x.id = s.id /\ Reply(s.c, x, s.ok)
-    [] s.a = "inbound" -> Inbound(s.c, s.q)
+    [] s.a = "reply" -> \E x \in pend[s.c] : x.id = s.id /\ Reply(s.c, x, s.ok, s.full)
+    [] s.a = "inbound" -> Inbound(s.c, s.q, s.full)
+    [] s.a = "deliver" -> IF Busy(s.c) /\ PhysLen(blk[s.c].q) >= PCap THEN Idle(s, [k |-> "blocked"]) ELSE Deliver(s.c)
     [] s.a = "fclose" -> IF conns[s.q][s.p].pri = 0 THEN Idle(s, [k |-> "err"]) ELSE FClose(s.q, s.p)
     [] s.a = "expire" -> IF <<s.p, s.c>> \notin track[s.q] THEN Idle(s, [k |-> "untracked"]) ELSE Expire(s.q, s.p, s.c)
 
@@ -83,9 +86,10 @@ TStepImpl ==
        /\ SameRet(r.s, out'.ret, r.ret)
        /\ \A q \in Svc :
             /\ \A p \in Peers : conns'[q][p] = r.view.conns[q + 1][p]
-            /\ Len(chan'[q]) = r.view.inbox[q + 1]
+            /\ Len(SelectSeq(chan'[q], LAMBDA e : e.k # "filler")) = r.view.inbox[q + 1]
             /\ track'[q] = {<<r.view.track[q + 1][i][1], r.view.track[q + 1][i][2]>> : i \in 1..Len(r.view.track[q + 1])}
        /\ nextId' = r.view.next
+       /\ {c \in DOMAIN blk' : blk'[c].k # "none"} = {r.view.blk[i] : i \in 1..Len(r.view.blk)}
 
 TStepProp ==
   LET r == Rec[l] IN
